@@ -144,10 +144,9 @@ func makeAccumulatorFunc(expr parser.ItemType) (newAccumulatorFunc, error) {
 
 			return &accumulator{
 				AddFunc: func(v float64) {
-					if !hasValue {
+					// Same as the Prometheus engine: a NaN is replaced by any other value.
+					if !hasValue || value < v || math.IsNaN(value) {
 						value = v
-					} else {
-						value = math.Max(value, v)
 					}
 					hasValue = true
 				},
@@ -166,10 +165,9 @@ func makeAccumulatorFunc(expr parser.ItemType) (newAccumulatorFunc, error) {
 
 			return &accumulator{
 				AddFunc: func(v float64) {
-					if !hasValue {
+					// Same as the Prometheus engine: a NaN is replaced by any other value.
+					if !hasValue || value > v || math.IsNaN(value) {
 						value = v
-					} else {
-						value = math.Min(value, v)
 					}
 					hasValue = true
 				},
